@@ -22,6 +22,12 @@ FIELDS = {'tid': 0, 't': 0, 'e': '', 'what': '', 'cls': '', 'hold': 0, 'kind': '
 def build(world, cls: str, hold_s: int | None = None) -> bytes:
     """Concrete bytes for a stimulus class (the class names are those of ExaSession!Classes)."""
     if cls == 'OPEN':
+        # the class is "a valid OPEN": every second one sent in a scenario also carries the host-name capability with names
+        # which are not ASCII (a valid OPEN all the same; what the peer does with the text -- logs, NOTIFICATION data, API --
+        # must not change how the session goes)
+        world._opens_built = getattr(world, '_opens_built', 0) + 1
+        if world._opens_built % 2 == 0:
+            return world.open_bytes(hold=hold_s, hostname=('z\u00fcrich-rr1', 'exemple.\u00e9'))
         return world.open_bytes(hold=hold_s)
     if cls == 'OPEN-version':
         raw = bytearray(world.open_bytes(hold=hold_s))
